@@ -36,7 +36,8 @@ Local Open Scope Z_scope.
 
 Definition E18 : Z := 1000000000000000000.
 Definition tok (n : N) : Z := Z.of_N n * E18.
-Definition tx_fee : Z := 1000000000000000.           (* delta026 = 0.001 *)
+Definition reward_blocks : N := 36000%N.              (* GetRewardBlocks *)
+Definition refund_blocks : N := 50%N.                 (* GetRefundBlocks *)
 Definition ten_tokens : Z := 10000000000000000000.   (* minerNodeExecutor charge *)
 Definition U64 : N := 18446744073709551616%N.
 Definition MAXU64 : N := 18446744073709551615%N.
@@ -74,8 +75,29 @@ Record st := { cur : regmap;
                esc : list (N * N * Z);    (* refund accounts "refund<height>": height, account, amount *)
                burned : Z }.              (* ghost: tokens destroyed by the operator-node charge *)
 
+(* the proposal gates on the execution path (common.IsProposalNNN() at the block's height); the record of the
+   current networks past their fork heights - and of the dev configuration - is all true *)
+Record gate := { g002 : bool;   (* AddFT/SubFT journalled (SetData) - before: setData, NOT undone by RevertToSnapshot *)
+                 g003 : bool;   (* UpdateMiner writes the status slot - before: never (RemoveMiner writes it always) *)
+                 g004 : bool;   (* a refund height of 0 becomes now + 100 * refundBlocks *)
+                 g012 : bool;   (* refund height = now + 36000 - before: the reward / group based heights *)
+                 g026 : bool }. (* transaction fee 0.001 - before 0.0001 *)
+Definition all_gates : gate := {| g002 := true; g003 := true; g004 := true; g012 := true; g026 := true |}.
+
 Record env := { ids : list N;             (* id universe in storage-trie iteration order *)
-                contract : N -> bool }.   (* AccountDB.IsContract of an account *)
+                contract : N -> bool;     (* AccountDB.IsContract of an account *)
+                gates : gate }.
+
+(* ProcessFee: delta026 = 0.001 from proposal026 on, delta = 0.0001 before *)
+Definition tx_fee (e : env) : Z := if g026 (gates e) then 1000000000000000 else 100000000000000.
+
+(* RefundManager.getRefundHeight for a miner of kind k at height now (no dismissing group is known to the stub group
+   chain, so the validator branch of the old rule yields 0; NextRewardHeight(now) = ceil(now / 36000) * 36000) *)
+Definition refund_height (e : env) (k now : N) : N :=
+  if g012 (gates e) then (now + refund_delay)%N else
+  let base := if N.eqb k 0 then 0%N
+              else (((now + reward_blocks - 1) / reward_blocks) * reward_blocks + refund_blocks)%N in
+  if (g004 (gates e) && N.eqb base 0)%bool then (now + refund_blocks * 100)%N else base.
 
 Definition is_some {A} (o : option A) : bool := match o with Some _ => true | None => false end.
 
@@ -164,7 +186,8 @@ Definition execute (e : env) (h : N) (t : tx) (s : st) : st * res :=
     if is_some (by_account e s acct') then (s, RAcctExists) else
     let b := fst (sub_bal (bal s) src (tok stake)) in
     (set_cur (set_bal s b)
-       (updr (cur s) typ id {| s_info := Some (h + height_after_stake)%N; s_stake := stake; s_acct := acct'; s_stat := 0%N |}),
+       (updr (cur s) typ id {| s_info := Some (h + height_after_stake)%N; s_stake := stake; s_acct := acct';
+               s_stat := if g003 (gates e) then 0%N else s_stat (cur s typ id) |}),
      ROk)
   | TAdd src json_ok id delta =>
     if negb json_ok then (s, RJson) else
@@ -174,7 +197,7 @@ Definition execute (e : env) (h : N) (t : tx) (s : st) : st * res :=
     | None => (s, RNoMiner)
     | Some (k, sl) =>
       let stake' := ((s_stake sl + delta) mod U64)%N in
-      let stat' := if (min_stake k <? stake')%N then 0%N else s_stat sl in
+      let stat' := if (g003 (gates e) && (min_stake k <? stake')%N)%bool then 0%N else s_stat sl in
       let b := fst (sub_bal (bal s) src (tok delta)) in
       (update_miner (set_bal s b) k id sl stake' (s_acct sl) stat', ROk)
     end
@@ -193,7 +216,7 @@ Definition execute (e : env) (h : N) (t : tx) (s : st) : st * res :=
         let s1 := if (left <? min_stake k)%N then remove_miner e s k id sl src left
                   else update_miner s k id sl left (s_acct sl) (s_stat sl) in
         ({| cur := cur s1; trie := trie s1; bal := bal s1;
-            pend := ((h + refund_delay)%N, s_acct sl, tok money) :: pend s1; esc := esc s1; burned := burned s1 |},
+            pend := (refund_height e k h, s_acct sl, tok money) :: pend s1; esc := esc s1; burned := burned s1 |},
          ROk)
       end
     end
@@ -228,19 +251,22 @@ Definition execute (e : env) (h : N) (t : tx) (s : st) : st * res :=
   end.
 
 (* ProcessFee *)
-Definition fee_step (s : st) (src : N) : st * bool :=
-  if bal s src <? tx_fee then (s, false)
-  else (set_bal s (add_bal (fst (sub_bal (bal s) src tx_fee)) fee_account tx_fee), true).
+Definition fee_step (e : env) (s : st) (src : N) : st * bool :=
+  if bal s src <? tx_fee e then (s, false)
+  else (set_bal s (add_bal (fst (sub_bal (bal s) src (tx_fee e))) fee_account (tx_fee e)), true).
 
 (* one iteration of the VMExecutor loop. RevertToSnapshot restores the AccountDB; the refund requests live in
    the executor context and are not under the snapshot *)
 Definition run_tx (e : env) (h : N) (t : tx) (s : st) : st * res :=
-  match fee_step s (tx_src t) with
+  match fee_step e s (tx_src t) with
   | (_, false) => (s, REvict)
   | (s1, true) =>
     match execute e h t s1 with
     | (s2, ROk) => (s2, ROk)
-    | (s2, r) => ({| cur := cur s1; trie := trie s1; bal := bal s1; pend := pend s2; esc := esc s1; burned := burned s1 |}, r)
+    | (s2, r) => ({| cur := cur s1; trie := trie s1;
+                     (* before proposal002 balance writes are not journalled: the operator-node charge survives the revert *)
+                     bal := if g002 (gates e) then bal s1 else bal s2;
+                     pend := pend s2; esc := esc s1; burned := burned s1 |}, r)
     end
   end.
 
